@@ -139,6 +139,94 @@ type srvEmit struct {
 	binary     int  // number of attachments in the ACK
 }
 
+// staleAck: an acknowledgement that belongs to a PREVIOUS session of the same client arrives on its new
+// session (the client kept the ack function of an event it got before it left the namespace / lost the
+// connection, and answers late). The pending emit of the new session must not be answered by it: its
+// callback gets its own reply, once, or a timeout. how: "same-connection" (DISCONNECT + CONNECT of the
+// namespace on one connection) or "new-connection".
+func staleAck(name, how string, withTimeout bool, bound int, early bool) *vx.Scenario {
+	sc := &vx.Scenario{Name: name + mode(early), EarlyTimers: early, Bound: bound, Horizon: 3 * time.Minute}
+	sc.Body = func(e *vsched.Exec) func() vx.Result {
+		srv := sio.NewServer(nil)
+		var sv vsched.Var
+		var socks []sio.ServerSocket
+		srv.OnConnection(func(s sio.ServerSocket) { sv.Do(func() { socks = append(socks, s) }) })
+		vsched.SetExploring(false)
+		f := vrig.NewFakeEIO(srv, "c03-stale-1")
+		f.ConnectNS("/")
+		vsched.Await(func() bool { return len(socks) == 1 })
+		log1, log2 := &cbLog{}, &cbLog{}
+		socks[0].Emit("q1", "x", func(s string) { log1.add("nil|" + s) })
+		var id1 string
+		vsched.Await(func() bool {
+			for _, t := range f.Texts() {
+				if strings.Contains(t, `["q1"`) {
+					var ok bool
+					id1, ok = ackID(t)
+					return ok
+				}
+			}
+			return false
+		})
+		f2 := f
+		if how == "same-connection" {
+			f.In("1")
+			vrig.Settle(time.Second)
+			f.ConnectNS("/")
+		} else {
+			f.TransportClose("transport close")
+			vrig.Settle(time.Second)
+			f2 = vrig.NewFakeEIO(srv, "c03-stale-2")
+			f2.ConnectNS("/")
+		}
+		vsched.Await(func() bool { return len(socks) == 2 })
+		vsched.SetExploring(true)
+		if withTimeout {
+			socks[1].Timeout(T).Emit("q2", "x", func(err error, s string) { log2.add(errStr(err) + "|" + s) })
+		} else {
+			socks[1].Emit("q2", "x", func(s string) { log2.add("nil|" + s) })
+		}
+		var id2 string
+		vsched.GoQuiet("client-late-answer-to-q1", func() {
+			f2.In("3" + id1 + `["answer to q1"]`)
+		})
+		vsched.GoQuiet("client-answer-to-q2", func() {
+			vsched.Await(func() bool {
+				for _, t := range f2.Texts() {
+					if strings.Contains(t, `["q2"`) {
+						var ok bool
+						id2, ok = ackID(t)
+						return ok
+					}
+				}
+				return false
+			})
+			f2.In("3" + id2 + `["answer to q2"]`)
+		})
+		return func() vx.Result {
+			var r vx.Result
+			r.Outcome = fmt.Sprint(log1.calls, log2.calls)
+			ctx := fmt.Sprintf("%s: q1 got ack id %s in the first session, q2 id %s in the second; callback of q1 %v, callback of q2 %v", how, id1, id2, log1.calls, log2.calls)
+			for _, c := range log2.calls {
+				if strings.Contains(c, "answer to q1") {
+					r.Violate("server: ack callback invoked with the reply to an emit of a previous session", "%s", ctx)
+				}
+			}
+			if len(log2.calls) > 1 {
+				r.Violate("server: ack callback invoked twice", "%s", ctx)
+			}
+			if len(log2.calls) == 1 && !early && log2.calls[0] != "nil|answer to q2" {
+				r.Violate("server: ack callback did not get its own reply", "%s", ctx)
+			}
+			if len(log2.calls) == 0 {
+				r.Violate("server: ack callback never invoked although the reply arrived", "%s", ctx)
+			}
+			return r
+		}
+	}
+	return sc
+}
+
 func serverSide(name string, emits []srvEmit, wrongID bool, cut time.Duration, bound int, early bool) *vx.Scenario {
 	sc := &vx.Scenario{Name: name + mode(early), EarlyTimers: early, Bound: bound, Horizon: 3 * time.Minute}
 	sc.Body = func(e *vsched.Exec) func() vx.Result {
@@ -477,6 +565,9 @@ func scenariosMode(tier string, early bool) []*vx.Scenario {
 	}
 	s = append(s,
 
+		staleAck("server/stale-ack-of-previous-session/same-connection", "same-connection", false, b1, early),
+		staleAck("server/stale-ack-of-previous-session/new-connection", "new-connection", false, b1, early),
+		staleAck("server/stale-ack-of-previous-session/new-connection-timeout", "new-connection", true, b1, early),
 		serverSide("server/plain-reply", []srvEmit{{ev: "a", reply: "ra"}}, false, 0, b1, early),
 		serverSide("server/plain-duplicate-reply", []srvEmit{{ev: "a", reply: "ra", duplicate: true}}, false, 0, b1, early),
 		serverSide("server/plain-wrong-id", []srvEmit{{ev: "a", reply: "ra"}}, true, 0, b1, early),
